@@ -408,11 +408,13 @@ pub struct Calib {
     pub prompt: String,
     pub out_tag: String,
     pub err_tag: String,
+    /// common prefix of the tool's informational log lines (`==> `); such lines are never compared
+    pub log_prefix: String,
 }
 
 impl Calib {
     pub fn default_() -> Calib {
-        Calib { prompt: "> ".to_string(), out_tag: "[stdout] ".to_string(), err_tag: "[stderr] ".to_string() }
+        Calib { prompt: "> ".to_string(), out_tag: "[stdout] ".to_string(), err_tag: "[stderr] ".to_string(), log_prefix: "==> ".to_string() }
     }
 }
 
@@ -439,6 +441,18 @@ pub fn calibrate(bin: &std::path::Path, scratch: &std::path::Path, repl: bool) -
             let tail = t0.rsplit('\n').next().unwrap_or("");
             if !tail.is_empty() {
                 c.prompt = tail.to_string();
+            }
+            // log prefix = common prefix of the complete lines printed before the first prompt (when there are >= 2 of them)
+            let header: Vec<&str> = t0.split_inclusive('\n').filter(|l| l.ends_with('\n')).collect();
+            if header.len() >= 2 {
+                let mut pre: String = header[0].to_string();
+                for l in &header {
+                    let n = pre.chars().zip(l.chars()).take_while(|(a, b)| a == b).count();
+                    pre = pre.chars().take(n).collect();
+                }
+                if pre.chars().count() >= 3 {
+                    c.log_prefix = pre;
+                }
             }
         }
         let script = if repl { format!("{}\n", CALIB_PROGRAM) } else { "r\n".to_string() };
@@ -561,6 +575,9 @@ pub fn check(c: &Case11, st: &mut Stats, bin: &std::path::Path, scratch: &std::p
     for (i, (got, want)) in chunks.iter().zip(exp.chunks.iter()).enumerate() {
         let cmd = exp.lines.get(i).cloned().unwrap_or_else(|| "<end of input>".to_string());
         let at = || format!("command #{} `{}` of script [{}]", i, cmd, shown_script());
+        // informational log lines of the tool are presentation: drop them before comparing
+        let got_owned: String = got.split_inclusive('\n').filter(|l| !l.starts_with(cal.log_prefix.as_str())).collect();
+        let got = &got_owned;
         let lines: Vec<&str> = got.lines().collect();
         match want {
             Chunk::Ignore => {
